@@ -56,6 +56,18 @@ func (f *funcAssertionNode) DefaultTrigger() annotation.ProducingAnnotationTrigg
 		return &annotation.ProduceTriggerNever{}
 	}
 
+	if root := f.Root(); root != nil && f.call != nil && root.HasContract(f.decl) &&
+		f.decl.Pkg() == root.Pass().Pkg {
+		// The callee has a contract, so (as for calls with non-constant arguments, see
+		// getFuncReturnProducers) the result of this call is the call-site result site that the
+		// duplicated triggers of the callee write to, not the shared result site. Contracted
+		// functions of other packages have no duplicated triggers here, so we keep the shared
+		// site for them.
+		return &annotation.FuncReturn{
+			TriggerIfNilable: &annotation.TriggerIfNilable{
+				Ann: annotation.NewCallSiteRetKey(f.decl, 0, root.LocationOf(f.call))}}
+	}
+
 	if f.decl.Type().(*types.Signature).Recv() != nil {
 		return &annotation.MethodReturn{
 			TriggerIfNilable: &annotation.TriggerIfNilable{
